@@ -12,6 +12,9 @@ for a in sys.argv[1:]:
         only = a.split("=", 1)[1].split(",")
 ids = args or sorted(os.listdir(SEED))
 subprocess.run(["git", "-C", "/repo", "checkout", "--", "."], check=True)
+import shutil, tempfile
+_ev_backup = tempfile.mkdtemp(prefix="evid_")
+shutil.copytree(os.path.join(ROOT, "evidence"), os.path.join(_ev_backup, "evidence"))
 for mid in ids:
     d = os.path.join(SEED, mid)
     meta = json.load(open(os.path.join(d, "meta.json")))
@@ -46,5 +49,9 @@ for mid in ids:
     meta["detected_by_quick_check"] = "yes" if any(v.startswith("VIOLATION") for k, v in res.items() if not k.endswith("_excerpt")) else ("no" if checks else "check not built yet")
     json.dump(meta, open(os.path.join(d, "meta.json"), "w"), indent=1)
     print(mid, {k: v for k, v in res.items() if not k.endswith("_excerpt")})
+# evidence files describe runs on the unmodified tree only: restore them
+shutil.rmtree(os.path.join(ROOT, "evidence"))
+shutil.copytree(os.path.join(_ev_backup, "evidence"), os.path.join(ROOT, "evidence"))
+shutil.rmtree(_ev_backup)
 # leave the generated files in the state of the unmodified tree
 subprocess.run([os.path.join(ROOT, "tools", "rs2coq", "target", "debug", "rs2coq"), "/repo", os.path.join(ROOT, "coq", "gen")], check=True)
